@@ -184,7 +184,12 @@ def run_check(modname, tier, seed, replay=None):
     if total.unmodelled:
         harness_problems.append("unmodelled operation on %d path(s) (first: %s)" % (
             len(total.unmodelled), json.dumps(jsonable(total.unmodelled[0]))[:300]))
-    unrep_exc = [u for u in total.unreproduced if u["label"] in ("no_exception", "returns")]
+    # a symbolic path that ran out of budget but returns natively is inconclusive (e.g. a loop bounded only by an unbounded symbolic
+    # budget), not a harness error; an exception that does not reproduce natively is one
+    n_budget = len([u for u in total.unreproduced if u["label"] == "returns"])
+    if n_budget:
+        total.inconclusive_paths += n_budget
+    unrep_exc = [u for u in total.unreproduced if u["label"] == "no_exception"]
     if unrep_exc:
         harness_problems.append("exception/timeout on a symbolic path that does not reproduce natively on %d path(s) (first: %s)" % (
             len(unrep_exc), json.dumps(jsonable(unrep_exc[0]))[:400]))
